@@ -9,14 +9,14 @@ COMMON_NOTE = ("Trusted: Lean 4.33 kernel, axioms {propext, Classical.choice, Qu
                "generic crate at an exact rational scalar against the model at Rat, plus f64 outcome/bit comparisons; ndarray, "
                "num-traits and the Rust type system are modelled, not verified. For the arithmetic kernels a translator regenerates their Lean "
                "definitions from /repo/src on every run and the FT_* theorems re-prove, for every input, that the model is built from "
-               "exactly those kernels (DESIGN 9.6); the control flow of monotonic_prop and get_lower_index is re-translated too (FT_ctl_*, DESIGN 9.7). ")
+               "exactly those kernels (DESIGN 9.6); the control flow of monotonic_prop, get_lower_index, the accessors and Linear / Bilinear interp_into is re-translated too (FT_ctl_*, DESIGN 9.7). ")
 CLAIMED = {
  "C01": ("Kernel-checked theorems for every strictly increasing axis, every length, every lane structure and every in-range query: "
          "C01_struct/C01_exact (value of the line through the bracketing points), C01_knot, C01_hull, C01_default_axis, and "
          "C01_rounding (13u+12u^2 bound under the standard model of fp arithmetic). Tied to the code by exact-rational "
          "correspondence and f64 runs held to the proved bound.", "§5 C01",
          "rounding only under the standard model (no overflow/underflow); f32 not run",
-         "Lean 4 proof (field algebra over the lookup theorem C11) + exact-rational correspondence + formula tie (kernels re-translated from the source each run, FT_* theorems)"),
+         "Lean 4 proof (field algebra over the lookup theorem C11) + exact-rational correspondence + formula tie (kernels re-translated from the source each run, FT_* theorems) + control-flow tie (Linear::interp_into, the Interp1D accessors and get_lower_index re-translated statement by statement each run; FT_ctl_linear etc. prove them equal to the model for every input)"),
  "C02": ("Kernel-checked: for every strictly increasing axis (n>=3), every data set and every non-periodic boundary pair the solver "
          "never fails (all Thomas pivots positive, C02_build), every answered query is the value of one cubic of degree <= 3 per interval "
          "(C02_eval, C02_cubic as Mathlib Polynomial), passes through the data (C02_through, C02_knot), is C1 (C02_C1) and C2 (C02_C2, from "
@@ -34,16 +34,16 @@ CLAIMED = {
          "single-lane theorems, carried to lanes by C08_spline_build_lanes / C08_individual", "Lean 4 proof (system <-> conditions equivalence, uniqueness, periodic condensation) + exact oracles + formula tie (kernels re-translated from the source each run, FT_* theorems)"),
  "C04": ("Theorems C04_struct, C04_blend, C04_node, C04_gridline, C04_transpose for all grids, axes, lanes and in-grid queries; "
          "exact correspondence and blend oracle at Q, f64 runs within the composed rounding bound, transposition metamorphic test.",
-         "§5 C04", "rounding as C01 (three nested calc_frac)", "Lean 4 proof (field identities, bracket uniqueness) + exact-rational correspondence + formula tie (kernels re-translated from the source each run, FT_* theorems)"),
+         "§5 C04", "rounding as C01 (three nested calc_frac)", "Lean 4 proof (field identities, bracket uniqueness) + exact-rational correspondence + formula tie (kernels re-translated from the source each run, FT_* theorems) + control-flow tie (Bilinear::interp_into and the Interp2D accessors re-translated each run; FT_ctl_bilinear)"),
  "C05": ("Theorems C05_linear, C05_bilinear (answered iff in the closed range, otherwise exactly OutOfBounds, never a panic), "
          "C05_gate_nan(_hi) with no assumption on the comparison operators (NaN), C05_batch_ok_iff / C05_batch_first_error for every "
          "strategy and entry point; spline variant in Props/C02. Outcome correspondence at Q and f64 over all strategies, entry points, "
          "range ends, adjacent floats, +-inf, NaN, offending element at every batch position.", "§5 C05",
-         "NaN handled by the operator-agnostic theorem + f64 runs", "Lean 4 proof (range gate normal form) + outcome correspondence + formula tie (kernels re-translated from the source each run, FT_* theorems)"),
+         "NaN handled by the operator-agnostic theorem + f64 runs", "Lean 4 proof (range gate normal form) + outcome correspondence + formula tie (kernels re-translated from the source each run, FT_* theorems) + control-flow tie (the range gates of Linear / Bilinear and is_in_range re-translated each run; FT_ctl_linear, FT_ctl_bilinear, FT_ctl_acc*_is_in_range)"),
  "C06": ("Theorems: never rejects (ordered field), in-range results identical with the flag on/off for ARBITRARY scalar operations "
          "(bit-identity), continuation by the first/last line piece resp. border cell (C06_linear_left/right/inside, C06_bilinear_cell); "
          "spline statements in Props/C02. Exact checks at Q incl. end cubic recovered from 4 exact samples; on/off bitwise at f64.",
-         "§5 C06", "no rounding bound outside the range for f64", "Lean 4 proof + exact-rational correspondence and exact end-polynomial oracle + formula tie (kernels re-translated from the source each run, FT_* theorems)"),
+         "§5 C06", "no rounding bound outside the range for f64", "Lean 4 proof + exact-rational correspondence and exact end-polynomial oracle + formula tie (kernels re-translated from the source each run, FT_* theorems) + control-flow tie for Linear / Bilinear (FT_ctl_linear, FT_ctl_bilinear)"),
  "C07": ("Kernel-checked (any slopes, single lane): C07_mode (periodic evaluation selected iff Periodic boundary and extrapolation), "
          "C07_wrap (outside the range the value is the in-range value at q - kP, k integer, wrapped point in [x0, x_{n-1})), C07_periodic "
          "(S(q + kP) = S(q) for every integer k, using the equal-ends check), C07_ends; rem_euclid law proved for the Rat instance. "
@@ -122,7 +122,7 @@ CLAIMED = {
  "C20": ("Theorems C20_linear_data / C20_bilinear_data for ARBITRARY scalar operations (bit-identity, NaN/inf included) and "
          "C20_linear_axis / C20_bilinear_axis over ordered fields (bracket transfer); metamorphic bitwise runs on the real f64 code "
          "with poisoned rows/columns and moved knots.", "§5 C20", "axis variant for floats rests on the same-bracket premise exercised by the runs",
-         "Lean 4 proof (data-flow argument, no algebraic law) + metamorphic bitwise runs + formula tie (kernels re-translated from the source each run, FT_* theorems)"),
+         "Lean 4 proof (data-flow argument, no algebraic law) + metamorphic bitwise runs + formula tie (kernels re-translated from the source each run, FT_* theorems) + control-flow tie (which points Linear / Bilinear read, re-translated each run; FT_ctl_linear, FT_ctl_bilinear)"),
 }
 
 
